@@ -217,6 +217,9 @@ def decode_float(data_raw: int, bit_offset: int, bit_length: int, min_value: flo
     # Unpack the bytes to a float using the '<f' format which specifies little-endian 32-bit floating point.
     decoded_float, = struct.unpack('<f', bytes_data)
 
+    if math.isnan(decoded_float):
+        # comparisons with NaN are always false, so it would slip through the range check below
+        raise ValueError("Value is not a number")
     if decoded_float < min_value:
         raise ValueError("Value below minimum allowed")
     if decoded_float > max_value:
